@@ -182,7 +182,14 @@ def r184(db, ctx):
             if raw:
                 its = raw[raw.index('size_of::<') + 10:-1]
         size_tab = {'u8': 1, 'f32': 4, 'f64': 8, 'lightmotif::abc::Nucleotide': 1, 'lightmotif::abc::AminoAcid': 1}
-        if its not in size_tab:
+        its_const = isz[1][1] if isz and isz[1][0] == 'k' and isinstance(isz[1][1], int) and not isinstance(isz[1][1], bool) else None
+        if its is None and its_const is not None:
+            # a named constant (`const ITEMSIZE: usize = size_of::<f32>()`) reaches MIR as its evaluated value
+            if fmt in FMT and its_const != FMT[fmt][0]:
+                probs.append(f'format {fmt!r} ({FMT[fmt][0]} bytes) disagrees with itemsize {its_const}')
+            its = f'<const {its_const}>'
+            size_tab = dict(size_tab, **{its: its_const})
+        elif its not in size_tab:
             probs.append(f'itemsize type {its!r} not recognised')
         elif fmt in FMT and size_tab[its] != FMT[fmt][0]:
             probs.append(f'format {fmt!r} ({FMT[fmt][0]} bytes) disagrees with itemsize size_of::<{its}>() = {size_tab[its]}')
@@ -260,7 +267,8 @@ def r184(db, ctx):
                     if x[0] == 'call' and x[1].endswith('mem::size_of') and len(x) > 3:
                         szs.append(x[3][x[3].index('size_of::<') + 10:-1])
                 sz_ok = (len(rest) == 1 and rest[0][0] == 'call' and rest[0][1].endswith('mem::size_of') and len(szs) == 1 and fmt in FMT
-                         and size_tab.get(szs[0]) == FMT[fmt][0]) or (not rest and fmt in FMT and FMT[fmt][0] == 1)
+                         and size_tab.get(szs[0]) == FMT[fmt][0]) or (not rest and fmt in FMT and FMT[fmt][0] == 1) \
+                    or (len(rest) == 1 and rest[0][0] == 'k' and fmt in FMT and rest[0][1] == FMT[fmt][0])   # evaluated named constant
                 if dims != [0, 1]:
                     p7.append(f'len is {X.show(ln[1], 100)}: not the product of the two exported extents self.shape[0] * self.shape[1] '
                               '(consumers such as bytes()/tobytes() allocate `len` bytes and fill product(shape)*itemsize of them)')
